@@ -26,6 +26,10 @@ let sep_pairs = [
   (* the two-byte branch at the edge of the shorter key: exactly two bytes left from the first difference *)
   ("ab\xff\x07", "ac\x00"); ("a\xff", "b\x00"); ("ab\xff", "ac\x00"); ("abc\xff\xff", "abd\x00"); ("k\x01\xff", "k\x02\x00\x01");
   ("k\x01\xff\x05", "k\x02\x00"); ("\x00\xff", "\x01\x00"); ("zz\xfe\xff", "zz\xff\x00"); ("c\xffzz", "d\x10x"); ("q\x10\xff\xff", "q\x11\x00\x00");
+  (* the two-byte branch WITHOUT a carry out of the low byte (the differing bytes differ by one, the byte after the first
+     is below 0xff): the separator is the first key's two bytes plus one - cut to one byte it would be a prefix of the
+     first key, hence smaller than it *)
+  ("k1899", "k1900"); ("rec-0001899", "rec-0001900"); ("ab\x01\x05zz", "ab\x02\x00zz"); ("m\x41\x00\x00", "m\x42\x00\x00"); ("x7aa", "x8aa");
 ]
 
 let rvalue st ~big =
